@@ -42,6 +42,11 @@ SOFTWARE, EVEN IF ADVISED OF THE POSSIBILITY OF SUCH DAMAGE.
 
 #include "exception.h"
 
+#ifdef YARA_VERIF
+// Verification hook H4: one call per candidate handed to match verification.
+void (*yr_verif_cand_hook)(size_t pos, uint32_t string_idx, int backtrack) = NULL;
+#endif
+
 static int _yr_scanner_scan_mem_block(
     YR_SCANNER* scanner,
     const uint8_t* block_data,
@@ -118,6 +123,10 @@ static int _yr_scanner_scan_mem_block(
       {
         if (match->backtrack <= i)
         {
+#ifdef YARA_VERIF
+          if (yr_verif_cand_hook != NULL)
+            yr_verif_cand_hook(i, match->string->idx, match->backtrack);
+#endif
           GOTO_EXIT_ON_ERROR(yr_scan_verify_match(
               scanner,
               match,
@@ -159,6 +168,10 @@ static int _yr_scanner_scan_mem_block(
     {
       if (match->backtrack <= i)
       {
+#ifdef YARA_VERIF
+        if (yr_verif_cand_hook != NULL)
+          yr_verif_cand_hook(i, match->string->idx, match->backtrack);
+#endif
         GOTO_EXIT_ON_ERROR(yr_scan_verify_match(
             scanner,
             match,
